@@ -75,9 +75,13 @@ Definition parse_atom (b : byte) (rest : bytes) : option (bytes * bytes) :=
   else match decode_size (b2n b) rest with
        | None => None
        | Some (size, rest') =>
-           let n := N.to_nat size in
-           if Nat.ltb (length rest') n then None
-           else Some (firstn n rest', skipn n rest')
+           (* compare in binary first: [size] is attacker-declared (up to 2^34) and must not be turned into a unary
+              number unless the buffer really is that long *)
+           if N.of_nat (length rest') <? size then None
+           else
+             let n := N.to_nat size in
+             if Nat.ltb (length rest') n then None
+             else Some (firstn n rest', skipn n rest')
        end.
 
 (* de.rs node_from_stream as a recursive-descent parser with fuel.
